@@ -364,3 +364,464 @@ Proof.
   - rewrite Ht. destruct (apply_filters_head bads x t) as [t' ->].
     destruct nbest as [|n]; [lia|]. cbn [firstn]. left. reflexivity.
 Qed.
+
+(* ---------------------------------------------------------------------------------------- *)
+(* C15: the selection depends on the features only through the tables                         *)
+(* ---------------------------------------------------------------------------------------- *)
+Lemma existsb_map_comp {A B} (f : B -> bool) (phi : A -> B) l :
+  existsb f (map phi l) = existsb (fun a => f (phi a)) l.
+Proof. induction l as [|a t IH]; cbn [map existsb]; [reflexivity|]. rewrite IH. reflexivity. Qed.
+
+Lemma existsb_ext_eq {A} (f g : A -> bool) l : (forall a, f a = g a) -> existsb f l = existsb g l.
+Proof. intros H. induction l as [|a t IH]; cbn [existsb]; [reflexivity|]. rewrite H, IH. reflexivity. Qed.
+
+Lemma filter_map_comp {A B} (p : B -> bool) (phi : A -> B) l :
+  filter p (map phi l) = map phi (filter (fun a => p (phi a)) l).
+Proof.
+  induction l as [|a t IH]; cbn [map filter]; [reflexivity|].
+  destruct (p (phi a)); cbn [map]; rewrite IH; reflexivity.
+Qed.
+
+Lemma insert_desc_map {A B} (phi : A -> B) (kA : A -> Z) (kB : B -> Z) :
+  (forall a, kB (phi a) = kA a) ->
+  forall x l, insert_desc kB (phi x) (map phi l) = map phi (insert_desc kA x l).
+Proof.
+  intros Hk x l. induction l as [|y t IH]; cbn [map insert_desc]; [reflexivity|].
+  rewrite !Hk. destruct (kA x <? kA y); cbn [map]; [rewrite IH|]; reflexivity.
+Qed.
+
+Lemma sort_desc_map {A B} (phi : A -> B) (kA : A -> Z) (kB : B -> Z) :
+  (forall a, kB (phi a) = kA a) ->
+  forall l, sort_desc kB (map phi l) = map phi (sort_desc kA l).
+Proof.
+  intros Hk l. induction l as [|a t IH]; cbn [map sort_desc fold_right]; [reflexivity|].
+  change (fold_right (insert_desc kB) [] (map phi t)) with (sort_desc kB (map phi t)).
+  change (fold_right (insert_desc kA) [] t) with (sort_desc kA t).
+  rewrite IH. apply insert_desc_map, Hk.
+Qed.
+
+Lemma greedy_map {A B} (phi : A -> B) (bA : A -> A -> bool) (bB : B -> B -> bool) :
+  (forall a b, bB (phi a) (phi b) = bA a b) ->
+  forall l kept, greedy bB (map phi kept) (map phi l) = map phi (greedy bA kept l).
+Proof.
+  intros Hb l. induction l as [|a t IH]; intros kept; cbn [map greedy]; [reflexivity|].
+  rewrite existsb_map_comp. rewrite (existsb_ext_eq _ (bA a)) by (intros; apply Hb).
+  destruct (existsb (bA a) kept).
+  - apply IH.
+  - cbn [map]. f_equal. apply (IH (a :: kept)).
+Qed.
+
+Definition bads_rel {A B} (phi : A -> B) (bA : A -> A -> bool) (bB : B -> B -> bool) : Prop :=
+  forall a b, bB (phi a) (phi b) = bA a b.
+
+Lemma apply_filters_map {A B} (phi : A -> B) badsA badsB :
+  Forall2 (bads_rel phi) badsA badsB ->
+  forall l, apply_filters badsB (map phi l) = map phi (apply_filters badsA l).
+Proof.
+  induction 1 as [|bA bB ta tb Hb _ IH]; intros l; unfold apply_filters; cbn [fold_left]; [reflexivity|].
+  change (greedy bB [] (map phi l)) with (greedy bB (map phi []) (map phi l)).
+  rewrite (greedy_map phi bA bB Hb). apply IH.
+Qed.
+
+Lemma initial_order_map {A B} (phi : A -> B) (keyA : A -> nat -> Z) (keyB : B -> nat -> Z) :
+  (forall a j, keyB (phi a) j = keyA a j) ->
+  forall cols comp, initial_order keyB cols (map phi comp) = map phi (initial_order keyA cols comp).
+Proof.
+  intros Hk cols comp. induction cols as [|j t IH]; unfold initial_order; cbn [fold_right]; [reflexivity|].
+  change (fold_right (fun j acc => sort_desc (fun r => keyB r j) acc) (map phi comp) t)
+    with (initial_order keyB t (map phi comp)).
+  rewrite IH. apply sort_desc_map. intros a. apply Hk.
+Qed.
+
+Lemma selected_for_map {A B} (phi : A -> B) keyA keyB badsA badsB nbest :
+  (forall a j, keyB (phi a) j = keyA a j) -> Forall2 (bads_rel phi) badsA badsB ->
+  forall initial j, selected_for keyB badsB nbest (map phi initial) j
+                    = map phi (selected_for keyA badsA nbest initial j).
+Proof.
+  intros Hk Hb initial j. unfold selected_for.
+  rewrite (sort_desc_map phi (fun r => keyA r j)) by (intros; apply Hk).
+  rewrite (apply_filters_map phi badsA badsB Hb). apply firstn_map.
+Qed.
+
+Theorem select_core_map {A B} (phi : A -> B) ideqA ideqB keyA keyB badsA badsB nbest cols comp :
+  (forall a b, ideqB (phi a) (phi b) = ideqA a b) ->
+  (forall a j, keyB (phi a) j = keyA a j) ->
+  Forall2 (bads_rel phi) badsA badsB ->
+  select_core ideqB keyB badsB nbest cols (map phi comp)
+  = map phi (select_core ideqA keyA badsA nbest cols comp).
+Proof.
+  intros Hi Hk Hb. unfold select_core.
+  rewrite (initial_order_map phi keyA keyB Hk).
+  rewrite filter_map_comp. f_equal. apply filter_ext. intros r.
+  rewrite !existsb_map_comp. apply existsb_ext_eq. intros j.
+  rewrite (selected_for_map phi keyA keyB badsA badsB nbest Hk Hb).
+  unfold memb. rewrite existsb_map_comp. apply existsb_ext_eq. intros y. apply Hi.
+Qed.
+
+(* permuting the input features does not change the selection when no measure is tied *)
+Lemma sorted_perm_unique {A} (k : A -> Z) :
+  forall l l', StronglySorted (desc k) l -> StronglySorted (desc k) l' -> Permutation l l' ->
+  (forall a b, In a l -> In b l -> k a = k b -> a = b) -> l = l'.
+Proof.
+  induction l as [|a t IH]; intros l' Hs Hs' Hp Hinj.
+  - apply Permutation_nil in Hp. subst. reflexivity.
+  - destruct l' as [|a' t']; [apply Permutation_sym, Permutation_nil in Hp; discriminate|].
+    inversion Hs as [|? ? Hst Hall]; subst. inversion Hs' as [|? ? Hst' Hall']; subst.
+    rewrite Forall_forall in Hall, Hall'.
+    assert (Ha : In a (a' :: t')) by (apply (Permutation_in _ Hp); left; reflexivity).
+    assert (Ha' : In a' (a :: t)) by (apply (Permutation_in _ (Permutation_sym Hp)); left; reflexivity).
+    assert (E : a = a').
+    { apply Hinj; [left; reflexivity | exact Ha' |].
+      assert (k a <= k a') by (destruct Ha as [->|Ha]; [lia | apply (Hall' a Ha)]).
+      assert (k a' <= k a) by (destruct Ha' as [->|Ha']; [lia | apply (Hall a' Ha')]).
+      lia. }
+    subst a'. f_equal. apply IH; try assumption.
+    + eapply Permutation_cons_inv, Hp.
+    + intros x y Hx Hy. apply Hinj; right; assumption.
+Qed.
+
+Lemma sort_desc_perm_eq {A} (k : A -> Z) l l' :
+  Permutation l l' -> (forall a b, In a l -> In b l -> k a = k b -> a = b) ->
+  sort_desc k l = sort_desc k l'.
+Proof.
+  intros Hp Hinj. apply (sorted_perm_unique k); try apply sort_desc_sorted.
+  - eapply Permutation_trans; [apply sort_desc_perm|].
+    eapply Permutation_trans; [exact Hp | apply Permutation_sym, sort_desc_perm].
+  - intros a b Ha Hb. apply Hinj; apply (Permutation_in _ (sort_desc_perm k l)); assumption.
+Qed.
+
+Lemma filter_none {A} (l : list A) : filter (fun _ => false) l = [].
+Proof. induction l; cbn [filter]; auto. Qed.
+
+Lemma select_core_nocols {A} (ideq : A -> A -> bool) keyf bads nbest comp :
+  select_core ideq keyf bads nbest [] comp = [].
+Proof. unfold select_core. cbn [map existsb]. apply filter_none. Qed.
+
+Theorem select_core_perm {A} (ideq : A -> A -> bool) keyf bads nbest cols comp comp' :
+  Permutation comp comp' ->
+  (forall j a b, In j cols -> In a comp -> In b comp -> keyf a j = keyf b j -> a = b) ->
+  select_core ideq keyf bads nbest cols comp = select_core ideq keyf bads nbest cols comp'.
+Proof.
+  intros Hp Hinj. destruct cols as [|j rest]; [rewrite !select_core_nocols; reflexivity|].
+  assert (E : initial_order keyf (j :: rest) comp = initial_order keyf (j :: rest) comp').
+  { unfold initial_order; cbn [fold_right]. apply sort_desc_perm_eq.
+    - eapply Permutation_trans; [apply (initial_order_perm keyf rest comp)|].
+      eapply Permutation_trans; [exact Hp | apply Permutation_sym, (initial_order_perm keyf rest comp')].
+    - intros a b Ha Hb. apply (Hinj j); [left; reflexivity| |];
+        apply (Permutation_in _ (initial_order_perm keyf rest comp)); assumption. }
+  unfold select_core. rewrite E. reflexivity.
+Qed.
+
+(* ---------------------------------------------------------------------------------------- *)
+(* from select_core to select_type                                                            *)
+(* ---------------------------------------------------------------------------------------- *)
+Lemma cell_eq_dec (a b : cell) : {a = b} + {a <> b}.
+Proof. decide equality. apply Z.eq_dec. Defined.
+
+Lemma row_eq_dec (a b : row) : {a = b} + {a <> b}.
+Proof. decide equality; [apply list_eq_dec, cell_eq_dec | apply bool_dec | apply Nat.eq_dec]. Defined.
+
+Lemma rows_of_ids n tn tm ms : forall fs rows,
+  rows_of n tn tm ms fs = Ok rows -> map rid rows = map f_id fs.
+Proof.
+  induction fs as [|f t IH]; intros rows H; cbn [rows_of] in H.
+  - injection H as <-. reflexivity.
+  - destruct (pipeline (base_ok n tn tm f) ms (f_raw f)) as [cs| |]; cbn [bind] in H; try discriminate.
+    destruct (rows_of n tn tm ms t) as [rest| |]; cbn [bind] in H; try discriminate.
+    injection H as <-. cbn [map rid]. f_equal. apply IH. reflexivity.
+Qed.
+
+Definition comp_of (t : tin) (rows : list row) : list row :=
+  filter (complete (List.length (t_ms t)) rows) rows.
+
+Definition core_of (t : tin) (rows : list row) : list row :=
+  select_core row_ideq key (map bad_of (t_filters t)) (t_nbest t) (rank_cols (t_ms t) rows) (comp_of t rows).
+
+Lemma select_rows_core t rows sel : select_rows t rows = Ok sel -> sel = core_of t rows.
+Proof.
+  unfold select_rows, core_of, comp_of. intros H.
+  destruct (rank_cols (t_ms t) rows) as [|j rest] eqn:E.
+  - injection H as <-. rewrite select_core_nocols. reflexivity.
+  - destruct (filter (complete (List.length (t_ms t)) rows) rows) as [|r comp];
+      [destruct (t_filters t) as [|f1 [|f2 fr]]|]; try discriminate; injection H as <-; reflexivity.
+Qed.
+
+Lemma select_type_core t out :
+  select_type t = Ok out ->
+  exists rows, table_of t = Ok rows /\ map rid rows = map f_id (t_feats t) /\ out = map rid (core_of t rows).
+Proof.
+  unfold select_type. intros H.
+  destruct (table_of t) as [rows| |] eqn:Et; cbn [bind] in H; try discriminate.
+  destruct (select_rows t rows) as [sel| |] eqn:Es; cbn [bind] in H; try discriminate.
+  injection H as <-. exists rows. split; [reflexivity|]. split.
+  - unfold table_of in Et. eapply rows_of_ids, Et.
+  - rewrite (select_rows_core _ _ _ Es). reflexivity.
+Qed.
+
+Lemma NoDup_map_inj {A B} (f : A -> B) l a b :
+  NoDup (map f l) -> In a l -> In b l -> f a = f b -> a = b.
+Proof.
+  induction l as [|x t IH]; intros Hn Ha Hb E; [contradiction|].
+  cbn [map] in Hn. inversion Hn as [|? ? Hni Hn']; subst.
+  destruct Ha as [->|Ha], Hb as [->|Hb]; auto.
+  - exfalso. apply Hni. rewrite E. apply in_map, Hb.
+  - exfalso. apply Hni. rewrite <- E. apply in_map, Ha.
+Qed.
+
+Lemma row_ideq_refl a : row_ideq a a = true.
+Proof. unfold row_ideq. apply Nat.eqb_refl. Qed.
+
+Lemma core_subseq_rows t rows :
+  exists l, subseq (core_of t rows) l /\ Permutation l (comp_of t rows).
+Proof.
+  exists (initial_order key (rank_cols (t_ms t) rows) (comp_of t rows)). split.
+  - apply select_core_subseq.
+  - apply initial_order_perm.
+Qed.
+
+Theorem select_type_distinct t out :
+  NoDup (map f_id (t_feats t)) -> select_type t = Ok out ->
+  NoDup out /\ incl out (map f_id (t_feats t)).
+Proof.
+  intros Hn H. destruct (select_type_core t out H) as [rows [_ [Hids ->]]].
+  rewrite <- Hids in *. destruct (core_subseq_rows t rows) as [l [Hss Hp]].
+  assert (Hc : subseq (comp_of t rows) rows) by apply filter_subseq.
+  split.
+  - eapply subseq_NoDup; [apply subseq_map, Hss|].
+    eapply Permutation_NoDup; [apply Permutation_map, Permutation_sym, Hp|].
+    eapply subseq_NoDup; [apply subseq_map, Hc | exact Hn].
+  - intros x Hx. apply in_map_iff in Hx. destruct Hx as [r [<- Hr]]. apply in_map.
+    eapply subseq_In; [exact Hc|]. apply (Permutation_in _ Hp). eapply subseq_In; eauto.
+Qed.
+
+(* ---------------------------------------------------------------------------------------- *)
+(* C14 packaged on the dtype level                                                            *)
+(* ---------------------------------------------------------------------------------------- *)
+Definition cols_of (t : tin) (rows : list row) : list nat := rank_cols (t_ms t) rows.
+Definition bads_of (t : tin) : list (row -> row -> bool) := map bad_of (t_filters t).
+Definition initial_of (t : tin) (rows : list row) : list row :=
+  initial_order key (cols_of t rows) (comp_of t rows).
+Definition sel_of (t : tin) (rows : list row) (j : nat) : list row :=
+  selected_for key (bads_of t) (t_nbest t) (initial_of t rows) j.
+
+Lemma rows_inj t rows a b :
+  NoDup (map rid rows) -> In a (comp_of t rows) -> In b (comp_of t rows) -> row_ideq a b = true -> a = b.
+Proof.
+  intros Hn Ha Hb E. unfold row_ideq in E. apply Nat.eqb_eq in E.
+  assert (Hs : subseq (comp_of t rows) rows) by apply filter_subseq.
+  apply (NoDup_map_inj rid rows); auto; eapply subseq_In; eauto.
+Qed.
+
+Lemma core_In t rows x :
+  NoDup (map rid rows) ->
+  (In x (core_of t rows) <-> In x (comp_of t rows) /\ exists j, In j (cols_of t rows) /\ In x (sel_of t rows j)).
+Proof.
+  intros Hn. unfold core_of, sel_of, initial_of, cols_of, bads_of.
+  apply select_core_In; [apply row_ideq_refl|]. intros a b. apply rows_inj, Hn.
+Qed.
+
+Theorem select_type_sorted t out :
+  select_type t = Ok out ->
+  exists rows sel, table_of t = Ok rows /\ out = map rid sel /\
+    forall j rest, rank_cols (t_ms t) rows = j :: rest ->
+                   StronglySorted (fun a b => key b j <= key a j) sel.
+Proof.
+  intros H. destruct (select_type_core t out H) as [rows [Ht [_ ->]]].
+  exists rows, (core_of t rows). split; [exact Ht|]. split; [reflexivity|].
+  intros j rest E. unfold core_of. rewrite E. apply (select_core_sorted row_ideq key).
+Qed.
+
+Lemma filter_split_length {A} (p : A -> bool) l :
+  (List.length (filter p l) + List.length (filter (fun x => negb (p x)) l) = List.length l)%nat.
+Proof. induction l as [|a t IH]; cbn [filter List.length]; [reflexivity|]. destruct (p a); cbn [negb List.length]; lia. Qed.
+
+Lemma cover_length {A} (dec : forall a b : A, {a = b} + {a <> b}) (n : nat) :
+  forall (ss : list (list A)) (l : list A), NoDup l ->
+  (forall x, In x l -> exists s, In s ss /\ In x s) ->
+  (forall s, In s ss -> (List.length s <= n)%nat) ->
+  (List.length l <= n * List.length ss)%nat.
+Proof.
+  induction ss as [|s ss IH]; intros l Hn Hc Hl.
+  - destruct l as [|x t]; [cbn; lia|]. destruct (Hc x (or_introl eq_refl)) as [s [[] _]].
+  - set (p := fun x => if in_dec dec x s then true else false).
+    pose proof (filter_split_length p l) as Hsplit.
+    assert (H1 : (List.length (filter p l) <= n)%nat).
+    { etransitivity; [|apply (Hl s); left; reflexivity].
+      apply NoDup_incl_length; [apply NoDup_filter, Hn|].
+      intros x Hx. apply filter_In in Hx. destruct Hx as [_ Hp]. unfold p in Hp.
+      destruct (in_dec dec x s); [assumption|discriminate]. }
+    assert (H2 : (List.length (filter (fun x => negb (p x)) l) <= n * List.length ss)%nat).
+    { apply IH; [apply NoDup_filter, Hn| |intros s' Hs'; apply Hl; right; exact Hs'].
+      intros x Hx. apply filter_In in Hx. destruct Hx as [Hx Hp]. unfold p in Hp.
+      destruct (in_dec dec x s) as [|Hns]; [discriminate|].
+      destruct (Hc x Hx) as [s' [[<-|Hs'] Hxs]]; [contradiction|]. exists s'. auto. }
+    cbn [List.length]. rewrite Nat.mul_succ_r. lia.
+Qed.
+
+Theorem select_type_nbest t out :
+  NoDup (map f_id (t_feats t)) -> select_type t = Ok out ->
+  exists rows, table_of t = Ok rows /\
+    (forall j, (List.length (sel_of t rows j) <= t_nbest t)%nat) /\
+    (forall i, In i out -> exists r j, In j (cols_of t rows) /\ In r (sel_of t rows j) /\ rid r = i) /\
+    (List.length out <= t_nbest t * List.length (cols_of t rows))%nat.
+Proof.
+  intros Hn H. destruct (select_type_core t out H) as [rows [Ht [Hids ->]]].
+  rewrite <- Hids in Hn. exists rows. split; [exact Ht|]. split; [|split].
+  - intros j. apply selected_for_length.
+  - intros i Hi. apply in_map_iff in Hi. destruct Hi as [r [<- Hr]].
+    apply (core_In t rows r Hn) in Hr. destruct Hr as [_ [j [Hj Hs]]]. exists r, j. auto.
+  - rewrite map_length.
+    replace (List.length (cols_of t rows)) with (List.length (map (sel_of t rows) (cols_of t rows)))
+      by apply map_length.
+    apply (cover_length row_eq_dec).
+    + destruct (core_subseq_rows t rows) as [l [Hss Hp]].
+      eapply subseq_NoDup; [exact Hss|]. eapply Permutation_NoDup; [apply Permutation_sym, Hp|].
+      eapply subseq_NoDup; [apply filter_subseq|]. eapply NoDup_map_inv, Hn.
+    + intros x Hx. apply (core_In t rows x Hn) in Hx. destruct Hx as [_ [j [Hj Hs]]].
+      exists (sel_of t rows j). split; [apply in_map, Hj|exact Hs].
+    + intros s Hs. apply in_map_iff in Hs. destruct Hs as [j [<- _]]. apply selected_for_length.
+Qed.
+
+Lemma bad_of_false f a c :
+  bad_of f a c = false -> fst (assoc_at f (rid a) (rid c)) <= fl_thresh f.
+Proof.
+  unfold bad_of. destruct (assoc_at f (rid a) (rid c)) as [v gt]. cbn [fst].
+  intros H. apply orb_false_iff in H. destruct H as [H _]. apply Z.ltb_ge in H. exact H.
+Qed.
+
+Theorem select_type_independent t rows :
+  (forall j f, In f (t_filters t) ->
+     ForallOrdPairs (fun a c => fst (assoc_at f (rid c) (rid a)) <= fl_thresh f) (sel_of t rows j)) /\
+  (NoDup (map rid rows) -> forall j, cols_of t rows = [j] ->
+     forall f a c, In f (t_filters t) -> In a (core_of t rows) -> In c (core_of t rows) -> a <> c ->
+       fst (assoc_at f (rid a) (rid c)) <= fl_thresh f \/ fst (assoc_at f (rid c) (rid a)) <= fl_thresh f).
+Proof.
+  assert (P : forall j f, In f (t_filters t) ->
+     ForallOrdPairs (fun a c => fst (assoc_at f (rid c) (rid a)) <= fl_thresh f) (sel_of t rows j)).
+  { intros j f Hf.
+    assert (Hb : In (bad_of f) (bads_of t)) by (apply in_map, Hf).
+    pose proof (selected_for_independent key (bads_of t) (t_nbest t) (initial_of t rows) j _ Hb) as Hp.
+    fold (sel_of t rows j) in Hp. induction Hp as [|a l Hall Hp IH]; constructor; [|exact IH].
+    rewrite Forall_forall in *. intros c Hc. apply bad_of_false, Hall, Hc. }
+  split; [exact P|].
+  intros Hn j Ecols f a c Hf Ha Hc Hne.
+  apply (core_In t rows a Hn) in Ha. apply (core_In t rows c Hn) in Hc.
+  destruct Ha as [_ [ja [Hja Ha]]]. destruct Hc as [_ [jc [Hjc Hc]]].
+  rewrite Ecols in Hja, Hjc. destruct Hja as [<-|[]]. destruct Hjc as [<-|[]].
+  destruct (ForallOrdPairs_In (P j f Hf) a c Ha Hc) as [E|[H|H]]; [contradiction|right; exact H|left; exact H].
+Qed.
+
+Lemma forallb_false_ex {A} (p : A -> bool) l : forallb p l = false -> exists x, In x l /\ p x = false.
+Proof.
+  induction l as [|a t IH]; cbn [forallb]; [discriminate|].
+  destruct (p a) eqn:E; cbn [andb]; intros H.
+  - destruct (IH H) as [x [Hx Hp]]. exists x. split; [right; exact Hx|exact Hp].
+  - exists a. split; [left; reflexivity|exact E].
+Qed.
+
+(* every input feature that is not returned has a reason *)
+Theorem select_type_maximal t rows r :
+  NoDup (map rid rows) -> In r rows -> ~ In (rid r) (map rid (core_of t rows)) ->
+  (rbase r = false \/ exists j, col_exists rows j = true /\ is_val (cell_at r j) = false)
+  \/ (In r (comp_of t rows) /\ forall j, In j (cols_of t rows) ->
+        let kj := fun x => key x j in
+        let ranked := sort_desc kj (initial_of t rows) in
+        drop_reason kj (bads_of t) ranked r
+        \/ (In r (apply_filters (bads_of t) ranked)
+            /\ List.length (sel_of t rows j) = t_nbest t
+            /\ forall g, In g (sel_of t rows j) -> key r j <= key g j)).
+Proof.
+  intros Hn Hr Hout.
+  destruct (complete (List.length (t_ms t)) rows r) eqn:Ec.
+  - right. assert (Hc : In r (comp_of t rows)) by (apply filter_In; auto).
+    split; [exact Hc|]. intros j Hj.
+    apply (selected_for_maximal row_eq_dec).
+    + apply (Permutation_in _ (Permutation_sym (initial_order_perm key (cols_of t rows) (comp_of t rows))) Hc).
+    + intros Hs. apply Hout. apply in_map. apply (core_In t rows r Hn). split; [exact Hc|].
+      exists j. split; assumption.
+  - left. unfold complete in Ec. apply andb_false_iff in Ec. destruct Ec as [Eb|Ef]; [left; exact Eb|].
+    right. destruct (forallb_false_ex _ _ Ef) as [j [_ Hj]]. exists j.
+    apply orb_false_iff in Hj. destruct Hj as [H1 H2]. apply negb_false_iff in H1. auto.
+Qed.
+
+Theorem select_type_best t rows j x :
+  NoDup (map rid rows) -> In j (cols_of t rows) -> In x (comp_of t rows) ->
+  (forall y, In y (comp_of t rows) -> y <> x -> key y j < key x j) -> (1 <= t_nbest t)%nat ->
+  In x (core_of t rows).
+Proof.
+  intros Hn Hj Hx Hmax Hnb. apply (core_In t rows x Hn). split; [exact Hx|]. exists j. split; [exact Hj|].
+  pose proof (initial_order_perm key (cols_of t rows) (comp_of t rows)) as Hp.
+  apply (best_feature_selected row_eq_dec); [exact Hnb| |].
+  - apply (Permutation_in _ (Permutation_sym Hp) Hx).
+  - intros y Hy. apply Hmax. apply (Permutation_in _ Hp Hy).
+Qed.
+
+(* the union over two measures can return two features that are too associated *)
+Definition union_witness : tin :=
+  mkTin 10 (999, 1000) (999, 1000) 1%nat
+    [mkM true false false 100 100; mkM true false false 100 100]
+    [mkFeat 0 0 1 [mkRaw false false false 5; mkRaw false false false 1] [Some 5; Some 1];
+     mkFeat 1 0 1 [mkRaw false false false 1; mkRaw false false false 5] [Some 1; Some 5]]
+    [mkFilter 5 [[(0, false); (9, false)]; [(9, false); (0, false)]]].
+
+Theorem union_not_independent :
+  exists t out a c f, select_type t = Ok out /\ In a out /\ In c out /\ a <> c /\ In f (t_filters t)
+    /\ fl_thresh f < fst (assoc_at f a c) /\ fl_thresh f < fst (assoc_at f c a).
+Proof.
+  exists union_witness, [1%nat; 0%nat], 0%nat, 1%nat,
+         (mkFilter 5 [[(0, false); (9, false)]; [(9, false); (0, false)]]).
+  split; [vm_compute; reflexivity|].
+  split; [right; left; reflexivity|]. split; [left; reflexivity|]. split; [discriminate|].
+  split; [left; reflexivity|]. split; vm_compute; reflexivity.
+Qed.
+
+(* ---------------------------------------------------------------------------------------- *)
+(* the checker's boolean predicate (evaluated on the implementation's output)                 *)
+(* ---------------------------------------------------------------------------------------- *)
+Lemma memn_In x l : memn x l = true <-> In x l.
+Proof.
+  induction l as [|y t IH]; cbn [memn In]; [split; [discriminate|tauto]|].
+  rewrite orb_true_iff, Nat.eqb_eq, IH. split; intros [H|H]; auto.
+Qed.
+
+Lemma nodupn_NoDup l : nodupn l = true <-> NoDup l.
+Proof.
+  induction l as [|x t IH]; cbn [nodupn]; [split; [constructor|reflexivity]|].
+  rewrite andb_true_iff, negb_true_iff, IH. split.
+  - intros [Hm Hn]. constructor; [|exact Hn]. intros Hin. apply memn_In in Hin. congruence.
+  - intros H. inversion H as [|? ? Hni Hn]; subst. split; [|exact Hn].
+    destruct (memn x t) eqn:E; [|reflexivity]. exfalso. apply Hni, memn_In, E.
+Qed.
+
+Lemma pairwise_ok_pairs (ok : nat -> nat -> bool) out :
+  pairwise_ok ok out = true -> ForallOrdPairs (fun a b => ok a b = true) out.
+Proof.
+  induction out as [|a t IH]; cbn [pairwise_ok]; intros H; [constructor|].
+  apply andb_true_iff in H. destruct H as [H1 H2]. constructor; [|apply IH, H2].
+  apply Forall_forall. intros b Hb. rewrite forallb_forall in H1. apply H1, Hb.
+Qed.
+
+Theorem type_ok_sound tc :
+  type_ok tc = true ->
+  let t := tc_in tc in let out := tc_out tc in
+  NoDup out /\ incl out (map f_id (t_feats t)) /\
+  (t_ms t <> [] ->
+     (List.length out <= t_nbest t * List.length (t_ms t))%nat /\
+     forall f, In f (t_filters t) ->
+       ForallOrdPairs (fun a b => fst (assoc_at f a b) <= fl_thresh f) out).
+Proof.
+  intros H. cbv zeta. unfold type_ok in H. cbv zeta in H.
+  set (t := tc_in tc) in *. set (out := tc_out tc) in *.
+  apply andb_true_iff in H. destruct H as [H H3]. apply andb_true_iff in H. destruct H as [H1 H2].
+  split; [apply nodupn_NoDup, H1|]. split.
+  - intros i Hi. rewrite forallb_forall in H2. apply memn_In, H2, Hi.
+  - intros Hms. destruct (t_ms t) as [|m ms] eqn:E; [contradiction|].
+    apply andb_true_iff in H3. destruct H3 as [H3 _].
+    apply andb_true_iff in H3. destruct H3 as [H3 Hind].
+    apply andb_true_iff in H3. destruct H3 as [_ Hlen].
+    split; [apply Nat.leb_le, Hlen|].
+    intros f Hf. unfold independent_b in Hind. rewrite forallb_forall in Hind.
+    pose proof (pairwise_ok_pairs _ _ (Hind f Hf)) as Hp.
+    induction Hp as [|a l Hall Hp IH]; constructor; [|exact IH].
+    rewrite Forall_forall in *. intros b Hb. apply Z.leb_le, Hall, Hb.
+Qed.
